@@ -251,6 +251,33 @@ func Requests(kind kit.Kind, rng *rand.Rand, ids *IDGen, level int) []Req {
 		first := spec.order[0]
 		add(fmt.Sprintf("param|%s|duplicate-%s", spec.method, first), spec.method, envelope(id, spec.method, paramsObj(spec, nil, "", `"`+first+`":`+spec.base[first])), kit.CanonID([]byte(id)), Expect{Class: "answered"}, false)
 	}
+	if level > 0 {
+		// 3b. two parameters mutated at once, and tool arguments retyped one level down (differential fodder:
+		// the reference classifier only says "answered"; the transports must still agree with each other)
+		for _, spec := range paramSpecs() {
+			if len(spec.order) < 2 {
+				continue
+			}
+			for _, j1 := range JSONTypes {
+				for _, j2 := range JSONTypes {
+					id := ids.Next()
+					params := paramsObj(spec, map[string]string{spec.order[0]: j1.Raw, spec.order[1]: j2.Raw}, "", "")
+					add(fmt.Sprintf("param2|%s|%s=%s,%s=%s", spec.method, spec.order[0], j1.Name, spec.order[1], j2.Name), spec.method, envelope(id, spec.method, params), kit.CanonID([]byte(id)), Expect{Class: "answered"}, true)
+				}
+			}
+		}
+		for _, arg := range []string{"nonce", "payload", "delay_us", "pad_n"} {
+			for _, jt := range JSONTypes {
+				id := ids.Next()
+				params := `{"name":"echo","arguments":{"nonce":"n","payload":"p","` + arg + `":` + jt.Raw + `}}`
+				add(fmt.Sprintf("param3|tools/call|echo.%s=%s", arg, jt.Name), "tools/call", envelope(id, "tools/call", params), kit.CanonID([]byte(id)), Expect{Class: "answered"}, true)
+			}
+		}
+		for _, rawid := range []string{"0", "-1", "1000000", "2147483648", "9007199254740991", `""`, `"01"`, `"1e6"`, `"ünï"`} {
+			add("idclass|ping|id="+rawid, "ping", envelope(rawid, "ping", ""), kit.CanonID([]byte(rawid)), Expect{Class: "result"}, true)
+			add("idclass|unknown-tool|id="+rawid, "tools/call", envelope(rawid, "tools/call", `{"name":"nope"}`), kit.CanonID([]byte(rawid)), Expect{Class: "error", Codes: []int{-32601, -32602}}, true)
+		}
+	}
 	// 4. envelope members removed / retyped / duplicated
 	for _, jt := range append([]struct{ Name, Raw string }{{"absent", ""}, {"v1.0", `"1.0"`}}, JSONTypes...) {
 		if jt.Name == "string" {
